@@ -147,6 +147,9 @@ def parse_location_entries(location_bytes, first_line):
             )
             start_line = last_line + decode_signed_varint(start_line_delta)
             end_line = start_line + end_line_delta
+            # Columns are stored plus one; zero means "no column"
+            start_column = start_column - 1 if start_column > 0 else None
+            end_column = end_column - 1 if end_column > 0 else None
         else:  # code == 15, no location
             start_line = None
             end_line = None
@@ -367,11 +370,12 @@ def parse_positions(linetable: bytes, first_lineno: int):
             if position_entry.no_line_flag:
                 yield (None, None, None, None)
             else:
+                # A negative column means "no column", which CPython reports as None
                 yield (
                     computed_line,
                     computed_line + position_entry.num_lines,
-                    position_entry.column,
-                    position_entry.endcolumn,
+                    position_entry.column if position_entry.column >= 0 else None,
+                    position_entry.endcolumn if position_entry.endcolumn >= 0 else None,
                 )
 
 
